@@ -337,8 +337,23 @@ def _conc_check(what, dx, dy, pad):
             else:
                 yy, xx = np.mgrid[-3:4, -3:4]
                 F = StarFinder(5.0, np.exp(-(xx ** 2 + yy ** 2) / 4.0))
-            return _tables_close(F(img), F(C), (('xcentroid',),
-                                                ('ycentroid',)), dx, dy)
+            msg = _tables_close(F(img), F(C), (('xcentroid',),
+                                               ('ycentroid',)), dx, dy)
+            if msg is not None or what == 'star':
+                return msg
+            # supplied positions (incl. exact half-integers) replace the peak
+            # finding: they shift with the image as well
+            xy = np.array([(10.5, 9.0), (33.0, 11.5), (14.5, 26.5),
+                           (38.2, 27.4)])
+            kw = dict(xycoords=xy)
+            kw2 = dict(xycoords=xy + np.array([dx, dy]))
+            F1 = (DAOStarFinder if what == 'dao' else IRAFStarFinder)(
+                5.0, 3.0, **kw)
+            F2 = (DAOStarFinder if what == 'dao' else IRAFStarFinder)(
+                5.0, 3.0, **kw2)
+            msg = _tables_close(F1(img), F2(C), (('xcentroid',),
+                                                 ('ycentroid',)), dx, dy)
+            return None if msg is None else 'with xycoords: ' + msg
         if what == 'catalog':
             s1 = detect_sources(img, 2.0, 4)
             s2 = detect_sources(C, 2.0, 4)
